@@ -103,7 +103,13 @@ def verify_many(rep, items, label="P", timeout_ms=30000, quiet=True, lemma_timeo
         if it.error or it.eng is None:
             continue
         for ob in it.eng.obligations:
-            jobs.append(_Ob(ob.name, list(it.axioms) + list(ob.pc), ob.goal))
+            if z3_is_false(ob.goal):
+                # structural (wiring) obligation that evaluated to False: it is refuted iff its path is feasible; feasibility is judged on the
+                # quantifier-free part of the path condition (decidable), which over-approximates the path
+                import z3 as _z3
+                jobs.append(_Ob(ob.name, [p_ for p_ in ob.pc if not _has_quantifier(p_)], ob.goal))
+            else:
+                jobs.append(_Ob(ob.name, list(it.axioms) + list(ob.pc), ob.goal))
             owner.append(idx)
     res = solve.discharge(jobs, (), timeout_ms) if jobs else []
     per = {}
@@ -221,6 +227,15 @@ def _report(rep, it, results, label, quiet):
 
 def verify(rep, contract, label="P", canaries=(), timeout_ms=30000, quiet=False, lemma_timeout_ms=30000):
     return verify_many(rep, [(contract, canaries)], label, timeout_ms, quiet, lemma_timeout_ms)[0]
+
+
+def _has_quantifier(e, _depth=0):
+    import z3
+    if z3.is_quantifier(e):
+        return True
+    if _depth > 40 or not z3.is_expr(e):
+        return False
+    return any(_has_quantifier(c, _depth + 1) for c in e.children())
 
 
 def z3_is_false(g):
